@@ -66,7 +66,7 @@ def main(tier, seed, replay=None):
     rs = np.random.RandomState(seed % (2 ** 31))
     C.proof_stage(rep, PID)
     rep.cov["trusted_base"] += ["harness/circuits.py object->table mapping of the CLT and of the implementation's converted circuit",
-                                "validity, structured decomposability and determinism of the converted circuit are certificates evaluated per run on the model's output (and the library's own check_spn on the implementation's), not general theorems (C12_structure_partial)"]
+                                "validity, structured decomposability and determinism are theorems about the model's conversion (C12_valid, C12_structured, C12_deterministic); on the implementation's circuit they are certificates evaluated per run (and the library's own check_spn)"]
     from deeprob.spn.utils.validity import check_spn
     from deeprob.spn.algorithms.inference import log_likelihood, likelihood
     from deeprob.spn.structure.node import Sum
